@@ -55,6 +55,32 @@ class Run:
                 "instance floor %s: analysed %d, floor %d (a rule that matches too little passes vacuously)" % (name, count, minimum),
                 cfg=cfg, trivial=True)
 
+    # ---- delegation --------------------------------------------------------------------------
+    def delegate(self, other_pid, why, only_rules=None):
+        """Run the rules of a sibling property whose truth this property depends on; their obligations are recorded here
+        under `<this>.via<other>.<Rn>` so that a change which breaks this property through the sibling mechanism is
+        reported by this check as well."""
+        import importlib
+        mod = importlib.import_module("sqv.props." + other_pid.lower())
+        sub = Run(other_pid, self.tier)
+        mod.check(sub)
+        n = 0
+        for o in sub.obs:
+            rn = o["rule"].split(".", 1)[1] if "." in o["rule"] else o["rule"]
+            if only_rules is not None and rn not in only_rules:
+                continue
+            rule = "%s.via%s.%s" % (self.pid, other_pid, rn)
+            o2 = dict(o)
+            o2["rule"] = rule
+            o2["key"] = rule + o["key"][len(o["rule"]):]
+            self.obs.append(o2)
+            n += 1
+        for c in sub.configs:
+            if c not in self.configs:
+                self.configs.append(c)
+        self.notes.append("delegated: %d obligations of %s%s run here because %s" % (n, other_pid, (" (rules %s)" % ",".join(sorted(only_rules))) if only_rules else "", why))
+        return n
+
     # ---- finish ------------------------------------------------------------------------------
     def finish(self, level, explanation, rule_text, extra=None):
         known = load_known(self.pid)
